@@ -1,4 +1,5 @@
 import H2T.Spec.Greedy
+import H2T.Lemmas.PreElement
 import H2T.Spec.Parts
 import H2T.Props.C13
 import H2T.Lemmas.WrapInv
@@ -23,6 +24,10 @@ bad reason — the machine did not flush a word of width 0 at the following spac
 `fix:` 33c7307 (`zero_width_word_kept_apart`).  It is still needed at the start of a line, where the machine does not
 separate a word without width from the next word (known finding `C04-zero-width-word-at-line-start`).
 Width 0 is covered by `wrap_zero_width`.
+**End to end**: the render tree of a paragraph holding one text (`paragraph_is_greedy`: sub-renderer, block start,
+`add_inline_text`, `into_lines`) and the whole pipeline on the parsed document `<p>text</p>` without style sheets
+(`paragraph_document_is_greedy`: style computation and tree building reduce in the kernel) return exactly the reference's
+lines — or its error — under the default wrapping options.
 
 Also proved: every emitted line fits the width (all inputs, all tags, all modes); whitespace runs collapse and any
 whitespace character acts as a space; whitespace at the start of a line is dropped; a word that fits is placed
@@ -194,5 +199,104 @@ example :
     let wide : Ch := ⟨0x5b57, 2, false, false⟩
     (match wrapParts 1 [.text [] [] [mkCh 97, spaceCh, wide]] with | .error .tooNarrow => true | _ => false) = true ∧
     (match greedy 1 (words [mkCh 97, spaceCh, wide]) with | .error .tooNarrow => true | _ => false) = true := by decide +kernel
+
+/-! ## end to end: a paragraph through the whole renderer and the whole pipeline -/
+
+/-- the characters of a rendered line -/
+def rlineChars : RLine → List Ch
+  | .text tl => tl.filterMap fun e => match e with | .cell c => some c.ch | .frag _ => none
+  | .rule b _ => b.chars
+
+theorem compile_p_text (cfg : Cfg) (d : Deco) (s : List Ch) :
+    compile cfg d (.box {} .block [.text {} s]) = [.startBlock, .text s, .endBlock] := by
+  simp [compile, compileList, styleOpen, styleClose]
+
+theorem noContent_no_marks (l : TLine) (h1 : l.noContent = true) (h2 : marks l = []) : l = [] := by
+  cases l with
+  | nil => rfl
+  | cons e r =>
+    cases e with
+    | cell c => simp [TLine.noContent, Elt.isCell] at h1
+    | frag n => simp [marks] at h2
+
+/-- **a paragraph is wrapped greedily by the whole renderer** (default wrapping options): the lines `renderTree` returns
+    for the tree `p[text]` — or its error — are those of the reference `greedy` on the words of the text -/
+theorem paragraph_is_greedy (cfg : Cfg) (d : Deco) (w : Nat) (hw : 1 ≤ w) (hww : cfg.wrapWidth = none) (hpad : cfg.padBlocks = false)
+    (hov : cfg.overflow = false) (s : List Ch) (hpos : ∀ wd ∈ words s, 0 < lwc wd) :
+    (renderTree cfg d w (.box {} .block [.text {} s])).map (fun ls => ls.map rlineChars) = greedy w (words s) := by
+  have hg := wrap_eq_greedy_full w [.text [] [] s] hw (by simpa [partsText, Part.chars] using hpos)
+  simp only [partsText, Part.chars, List.append_nil] at hg
+  rw [← hg]
+  unfold wrapParts
+  simp only [WB.runParts, WB.addPart, andThen]
+  unfold renderTree
+  rw [if_neg (by omega), compile_p_text]
+  have hsb : ({ width := w } : SubR).startBlock = .ok { width := w } := by
+    simp [SubR.startBlock, SubR.flushWrapping, andThen]
+  have hadd : ({ width := w } : SubR).addInlineText cfg s d.annOf =
+      (match ({ width := w } : WB).addText .normal [] [] s with
+       | .ok w1 => .ok { width := w, wrapping := some w1 }
+       | .error e => .error e) := by
+    unfold SubR.addInlineText
+    simp only [SubR.wsMode, List.getLast?_nil, Option.getD_none, WS.preserve, Bool.not_false, Bool.true_and, Bool.false_and,
+      Bool.false_eq_true, if_false, andThen, iterN, SubR.getWrapping, hww, hpad, hov, List.nil_append, Nat.lt_irrefl]
+    cases ({ width := w } : WB).addText .normal [] [] s <;> rfl
+  simp only [runOps, runOp, stepSimple, RS.onCur, andThen, hsb, hadd]
+  cases h1 : ({ width := w } : WB).addText .normal [] [] s with
+  | error e => rfl
+  | ok w1 =>
+    simp only [footTexts, List.zipIdx_nil, List.map_nil, ite_self, List.isEmpty_nil, if_true]
+    obtain ⟨m1, _⟩ := addText_marks _ w1 _ _ _ _ (fun _ => Or.inl rfl) h1
+    have hwm : marks w1.word = [] := by
+      have : w1.marks = [] := by rw [m1]; rfl
+      simp only [WB.marks, List.append_eq_nil_iff] at this
+      exact this.2
+    have hb : (if w1.word.noContent = true then { w1 with word := [] } else w1) = w1 := by
+      split
+      · rename_i hn
+        have := noContent_no_marks w1.word hn hwm
+        cases w1; simp_all
+      · rfl
+    have hfr : (if w1.word.noContent = true then w1.word else []) = [] := by
+      split
+      · rename_i hn; exact noContent_no_marks w1.word hn hwm
+      · rfl
+    unfold SubR.intoLines SubR.flushWrapping
+    simp only [hb, hfr, andThen]
+    cases h2 : w1.finish with
+    | error e => rfl
+    | ok ls =>
+      have := (addLines_plain (ls.map RLine.text) ({ width := w, atBlockEnd := true } : SubR) rfl).1
+      simp only [List.nil_append] at this
+      simp only [this, Except.map, List.map_map, linesText]
+      congr 1
+
+
+/-- the DOM html5ever builds for `<p>text</p>` -/
+def pDoc (s : List Ch) : Node :=
+  .doc [.elem "html" true [] [.elem "head" true [] [], .elem "body" true [] [.elem "p" true [] [.text s]]]]
+
+theorem domTree_pDoc (ci : CharInfo) (depth : Nat) (s : List Ch) :
+    domTree false false none none ci depth (pDoc s) =
+      .ok (.box {} .container [.box {} .container [.box {} .container [.box {} .block [.text {} s]]]]) := by
+  rfl
+
+/-- **`<p>text</p>`, the whole pipeline** (no style sheets, default wrapping options): the outcome is the reference's -/
+theorem paragraph_document_is_greedy (cfg : Cfg) (d : Deco) (w : Nat) (hw : 1 ≤ w) (hdec : cfg.decorate = false) (hww : cfg.wrapWidth = none)
+    (hpad : cfg.padBlocks = false) (hov : cfg.overflow = false) (ci : CharInfo) (depth : Nat) (s : List Ch)
+    (hpos : ∀ wd ∈ words s, 0 < lwc wd) :
+    (match renderDom cfg d w false none none ci depth (pDoc s) with
+     | .lines ls => Except.ok (ls.map rlineChars)
+     | .narrow => .error .tooNarrow
+     | .panic m => .error (.panic m)
+     | .hang m => .error (.hang m)
+     | .cssErr => .error (.panic "css")) = greedy w (words s) := by
+  rw [renderDom_factor, hdec, domTree_pDoc]
+  simp only [renderTree_wrapped]
+  rw [← paragraph_is_greedy cfg d w hw hww hpad hov s hpos]
+  cases renderTree cfg d w (.box {} .block [.text {} s]) with
+  | ok ls => rfl
+  | error e => cases e <;> rfl
+
 
 end H2T.C04
